@@ -7,12 +7,16 @@
 // close the goroutines that were not there before the run and the entries
 // left in the engine's work directory.
 //
-// A traversal that does not finish is never reported by this process: the
-// worker keeps waiting, a watchdog prints one `C07STUCK {...}` line (two
-// goroutine dumps some seconds apart with no row delivered in between and
-// every pipeline goroutine parked in the same channel operation) and the
-// supervisor (harness/sup) kills the worker at its deadline and retries on a
-// fresh one.
+// A traversal that does not finish is never answered by this process.  A
+// watchdog waits for a deadline that is generous for these workloads, then
+// takes two goroutine dumps some seconds apart; if no row was delivered in
+// between and every goroutine of the pipeline is parked in the same channel
+// operation in both, it writes a `C07STUCK {...}` report (stderr and
+// $TMPDIR/c07stuck.log, with the pid) and ends the worker.  The supervisor
+// (harness/sup) then retries the request on a fresh worker; the check counts a
+// run as blocked only when two different workers reported it.  A run that is
+// merely slow is reported as C07SLOW and the worker keeps waiting (the
+// supervisor's own deadline is the backstop).
 package pipeh
 
 import (
@@ -232,6 +236,7 @@ type gor struct {
 	Mins  int    // minutes in that state, as printed by the runtime
 	Fn    string // innermost grip (or harness scan probe) frame; "" if none
 	Top   string // innermost frame
+	Store bool   // the goroutine waits inside the key-value store (possibly for I/O), not in engine code
 }
 
 var headRe = regexp.MustCompile(`^goroutine (\d+) \[([^\],]+)(?:, (\d+) minutes)?(?:, locked to thread)?\]:$`)
@@ -257,6 +262,7 @@ func dump() []gor {
 			continue
 		}
 		g := gor{State: m[2]}
+		inner := false
 		g.ID, _ = strconv.Atoi(m[1])
 		g.Mins, _ = strconv.Atoi(m[3])
 		for _, l := range lines[1:] {
@@ -269,6 +275,11 @@ func dump() []gor {
 			}
 			if g.Top == "" {
 				g.Top = fn
+			}
+			if !inner && !strings.HasPrefix(fn, "sync.") && !strings.HasPrefix(fn, "runtime.") && !strings.HasPrefix(fn, "golang.org/x/sync/") {
+				// the innermost frame that is not a synchronisation primitive says where the goroutine waits
+				inner = true
+				g.Store = strings.Contains(fn, "dgraph-io/") || strings.Contains(fn, "/grip/kvi/")
 			}
 			if g.Fn == "" && (strings.HasPrefix(fn, "github.com/bmeg/grip/") || strings.HasPrefix(fn, "verifharness/pipeh.(*probeGraph)")) {
 				g.Fn = strings.TrimPrefix(fn, "github.com/bmeg/grip/")
@@ -318,8 +329,12 @@ func summarize(gs []gor) []blockedAt {
 	return out
 }
 
-var parked = map[string]bool{"chan send": true, "chan receive": true, "select": true, "semacquire": true, "sync.WaitGroup.Wait": true,
-	"sync.Cond.Wait": true, "chan send (nil chan)": true, "chan receive (nil chan)": true, "select (no cases)": true}
+// a goroutine is parked when it waits in a channel operation (or for other goroutines) outside the
+// key-value store; anything else may still be working
+var parkedStates = map[string]bool{"chan send": true, "chan receive": true, "select": true, "semacquire": true, "sync.WaitGroup.Wait": true,
+	"chan send (nil chan)": true, "chan receive (nil chan)": true, "select (no cases)": true}
+
+func parked(g gor) bool { return parkedStates[g.State] && !g.Store }
 
 // watch prints the stall report; it never answers the request itself.
 func (h *handler) watch(i interface{}, before map[int]bool, rows *int64, procs []string, stop <-chan struct{}) {
@@ -336,7 +351,7 @@ func (h *handler) watch(i interface{}, before map[int]bool, rows *int64, procs [
 				continue
 			}
 			gs = append(gs, g)
-			if !parked[g.State] {
+			if !parked(g) {
 				all = false
 			}
 		}
@@ -360,13 +375,23 @@ func (h *handler) watch(i interface{}, before map[int]bool, rows *int64, procs [
 			}
 		}
 	}
-	rep := map[string]interface{}{"i": i, "rows": r2, "procs": procs, "after_s": int(h.watchdog.Seconds()) + 5, "blocked": summarize(b)}
+	rep := map[string]interface{}{"i": i, "pid": os.Getpid(), "rows": r2, "procs": procs, "after_s": int(h.watchdog.Seconds()) + 5, "blocked": summarize(b)}
+	stuck := r1 == r2 && same && pa && pb && len(b) > 0
 	tag := "C07SLOW"
-	if r1 == r2 && same && pa && pb && len(b) > 0 {
+	if stuck {
 		tag = "C07STUCK"
 	}
 	js, _ := json.Marshal(rep)
 	fmt.Fprintf(os.Stderr, "\n%s %s\n", tag, js)
+	if f, err := os.OpenFile(filepath.Join(os.TempDir(), "c07stuck.log"), os.O_APPEND|os.O_CREATE|os.O_WRONLY, 0o644); err == nil {
+		fmt.Fprintf(f, "%s %s\n", tag, js)
+		f.Close()
+	}
+	if stuck {
+		// the blocked goroutines can never be reclaimed: end this worker (no answer for the request)
+		h.Close()
+		os.Exit(3)
+	}
 }
 
 func procNames(p gdbi.Pipeline) []string {
